@@ -83,3 +83,61 @@ pub fn run_fixed<F: FnMut(&Case<'_>, &mut Report)>(rep: &mut Report, o: &Opts, c
         }
     }
 }
+
+
+/// the widest generator (every modelled setting) as a second pass of a property's check: the parser model is one
+/// model, so a change that moves the real parser away from it anywhere is a broken tie for every parser property
+pub fn run_generic(rep: &mut Report, o: &Opts, salt: u64) {
+    let cfg = GenCfg { relations: true, defaults: true, subs: true, exotic: true, groups: true, flagsubs: true, settings: true, globals: true };
+    let (n_cmds, n_argv) = if o.thorough() { (6000, 25) } else { (1000, 16) };
+    run(rep, o, cfg, n_cmds, n_argv, 7, salt ^ 0x9e37, |_, _| vec![], |case, rep| {
+        if case.canon.starts_with("PANIC") { rep.oracle_fail("panic", case.req, case.canon); }
+        rep.count("generic_pass_cases");
+    });
+}
+
+
+pub type Expect = Box<dyn Fn(&ArgMatches) -> Result<(), String>>;
+
+/// hand-picked shapes with a stated expectation on the real matches (plus the usual model comparison)
+pub fn run_expect(rep: &mut Report, o: &Opts, class: &str, cases: Vec<(CmdS, Vec<Vec<u8>>, Expect)>) {
+    let mut reqs = vec![]; let mut impls = vec![];
+    for (cmd, argv, expect) in &cases {
+        if !real_valid(cmd) { rep.notes.push(format!("{class}: shape is not a valid definition: {}", cmd.summary(0))); continue; }
+        let (canon, m, e) = real_parse(cmd, argv);
+        let req = parse_request(cmd, argv);
+        let shown: Vec<String> = argv.iter().map(|a| String::from_utf8_lossy(a).to_string()).collect();
+        match (&m, &e) {
+            (Some(m), _) => { if let Err(msg) = expect(m) { rep.oracle_fail(class, &req, &format!("{msg}; argv={shown:?}")); } }
+            (None, Some(e)) => rep.oracle_fail(class, &req, &format!("rejected with {:?}; argv={shown:?}", e.kind())),
+            _ => rep.oracle_fail("panic", &req, &canon),
+        }
+        rep.case(&req, true);
+        rep.count(&format!("shape:{class}"));
+        reqs.push(req); impls.push(canon);
+    }
+    if o.driver != "none" {
+        let model = driver_batch(&o.driver, &reqs, 1);
+        for ((req, m), i) in reqs.iter().zip(model.iter()).zip(impls.iter()) { if m != i { rep.disagree("parse", req, m, i); } }
+    }
+}
+
+pub fn bv(v: &[&str]) -> Vec<Vec<u8>> { v.iter().map(|x| x.as_bytes().to_vec()).collect() }
+
+/// the raw occurrences of `id` at the level reached through `path`
+pub fn occs(m: &ArgMatches, path: &[&str], id: &str) -> Result<Vec<Vec<Vec<u8>>>, String> {
+    use std::os::unix::ffi::OsStrExt as _;
+    let mut cur = m;
+    for p in path { match cur.subcommand() { Some((n, sm)) if n == *p => cur = sm, other => return Err(format!("expected subcommand {p:?}, found {:?}", other.map(|x| x.0))) } }
+    Ok(cur.try_get_raw_occurrences(id).map_err(|e| format!("{e}"))?.map(|o| o.map(|g| g.map(|v| v.as_bytes().to_vec()).collect()).collect()).unwrap_or_default())
+}
+
+pub fn want_occs(m: &ArgMatches, path: &[&str], id: &str, want: &[&[&str]]) -> Result<(), String> {
+    let got = occs(m, path, id)?;
+    let want: Vec<Vec<Vec<u8>>> = want.iter().map(|g| g.iter().map(|x| x.as_bytes().to_vec()).collect()).collect();
+    if got != want { return Err(format!("`{id}` at {path:?}: got {:?}, expected {:?}", got.iter().map(|g| g.iter().map(|v| String::from_utf8_lossy(v).to_string()).collect::<Vec<_>>()).collect::<Vec<_>>(), want.iter().map(|g| g.iter().map(|v| String::from_utf8_lossy(v).to_string()).collect::<Vec<_>>()).collect::<Vec<_>>())); }
+    Ok(())
+}
+
+pub fn want_no_sub(m: &ArgMatches) -> Result<(), String> { match m.subcommand_name() { None => Ok(()), Some(n) => Err(format!("a subcommand was dispatched: {n:?}")) } }
+pub fn want_source(m: &ArgMatches, id: &str, want: Option<clap::parser::ValueSource>) -> Result<(), String> { let got = m.value_source(id); if got == want { Ok(()) } else { Err(format!("value_source({id}) = {got:?}, expected {want:?}")) } }
